@@ -57,3 +57,74 @@ package ipk
 //@   ensures [C15 C14 C02] name: result == old(info.Name) + "_" + ipkVersion(old(info.Version), old(info.Prerelease), old(info.VersionMetadata), old(info.Release)) + "_" + info.Arch + ".ipk"
 //@   ensures [C15] extension: strings.HasSuffix(result, d.ConventionalExtension())
 //@   modifies [C11 C12] &info.Arch
+//
+//@ import "strconv"
+//
+//@ spec func epochPrefix(epoch string) string {
+//@     if epoch == "" { return "" }
+//@     return epoch + ":"
+//@ }
+//
+//@ spec func optField(name, value string) string {
+//@     if value == "" { return "" }
+//@     return "\n" + name + ": " + value
+//@ }
+//
+//@ spec func flagField(name string, set bool) string {
+//@     if !set { return "" }
+//@     return "\n" + name + ": yes"
+//@ }
+//
+//@ spec func relField(name string, list []string) string {
+//@     if len(list) == 0 { return "" }
+//@     return "\n" + name + ": " + strings.Trim(strings.Join(list, ", "), " ")
+//@ }
+//
+//@ spec func sizeField(instSize int64) string {
+//@     if instSize == 0 { return "" }
+//@     return "\nInstalled-Size: " + strconv.FormatInt(instSize, 10)
+//@ }
+//
+//@ spec func altField(n int, rendered string) string {
+//@     if n == 0 { return "" }
+//@     return "\nAlternatives: " + rendered
+//@ }
+//
+//@ spec func ipkControl(info *nfpm.Info, instSize int64) string {
+//@     return "Architecture: " + info.Arch +
+//@         "\nDescription: " + callStr("renderControl$2", info.Description) +
+//@         "\nMaintainer: " + info.Maintainer +
+//@         "\nPackage: " + info.Name +
+//@         "\nPriority: " + info.Priority +
+//@         "\nVersion: " + epochPrefix(info.Epoch) + ipkVersion(info.Version, info.Prerelease, info.VersionMetadata, info.Release) +
+//@         optField("ABIVersion", info.IPK.ABIVersion) +
+//@         altField(len(info.IPK.Alternatives), renderedRange(".Info.IPK.Alternatives")) +
+//@         flagField("Auto-Installed", info.IPK.AutoInstalled) +
+//@         relField("Conflicts", info.Conflicts) +
+//@         relField("Depends", info.Depends) +
+//@         flagField("Essential", info.IPK.Essential) +
+//@         optField("Homepage", info.Homepage) +
+//@         optField("License", info.License) +
+//@         sizeField(instSize) +
+//@         relField("Pre-Depends", info.IPK.Predepends) +
+//@         relField("Provides", callStrs("renderControl$3", info.Provides)) +
+//@         relField("Recommends", info.Recommends) +
+//@         relField("Replaces", info.Replaces) +
+//@         optField("Section", info.Section) +
+//@         relField("Suggests", info.Suggests) +
+//@         relField("Tags", info.IPK.Tags) +
+//@         optField("Vendor", info.Vendor) +
+//@         renderedRange(".Info.IPK.Fields") + "\n"
+//@ }
+//
+//@ func renderControl(w io.Writer, data controlData) (err error)
+//@   requires data.Info != nil
+//@   ensures [C02 C14 C15] control-fields: implies(err == nil, ghostStr(w, "out") == old(ghostStr(w, "out")) + ipkControl(data.Info, data.InstalledSize))
+//
+//@ func renderControl$3(strs []string) (result []string)
+//@   ensures [C02] no-blank-items: forall(0, len(result), func(i int) bool { return result[i] != "" && result[i] == strings.TrimSpace(result[i]) })
+//@   loop 0 (result []string)
+//@     invariant [C11 C12] accumulator-fresh: result == nil || fresh(result)
+//@     invariant [C02] no-blank-items-so-far: forall(0, len(result), func(i int) bool { return result[i] != "" && result[i] == strings.TrimSpace(result[i]) })
+//
+//@ pure func renderControl$2(strs string) (result string)
